@@ -94,6 +94,8 @@ def check(repo, rep):
         if '_Limiter' in u:
             rep.unknown(u)
     # split_and_join / list consumers are not part of the lazy path; workers iterate the generator directly (C12)
+    from .c10 import check_one_inner_read
+    check_one_inner_read(cx, rep)          # ... and each reader wrapper under split() passes one request on as one request
     rep.explanation = ('(1) From the tokenizer abstract interpretation (all states x inputs x 4 modes): exactly one source read per loop iteration and before any append/deliver; every token built in an '
                        'iteration is yielded in that same iteration (no stash, no deferred hand-over); after end of stream the loop is left, so end of stream is requested once; a token that is not a cut is '
                        'decided at most max(max_continuous_silence,0)+1 frames after its last frame (proved as an entailment). (2) Structural: tokenize() creates one generator and its callback / generator / '
